@@ -12,6 +12,7 @@ import gc
 import inspect
 import itertools
 import os
+import struct
 
 from mc import core, sched, sim, wire as W
 
@@ -327,6 +328,8 @@ def programs(tier):
         "B|R": [[("b", [("w", 0, ones), ("w", 0, twos)])], [("r", 0, N)]],
         "private": [[("w", 0, (1,)), ("r", 0, 1)], [("w", 1, (2,)), ("r", 1, 1)]],
         "W|W|R": [[("w", 0, ones)], [("w", 0, twos)], [("r", 0, N)]],
+        # the shared tag read as a whole attribute through the secondary service (Get Attribute Single, raw bytes)
+        "W|G": [[("w", 0, ones)], [("ga",)]],
         # both sessions arrive at a simulator whose CIP objects do not exist yet: one-time creation under setup.lock
         "cold": [[("w", 0, ones)], [("r", 0, N)]],
         # ... and a simulator WITHOUT configured tags (setup() has nothing to check per request), whose sessions ask for an attribute
@@ -346,6 +349,8 @@ def encode(req):
         return W.read_tag(W.tag_path("a", req[1] if req[1] else None), req[2])
     if req[0] == "g":
         return W.get_attribute_single(W.cia_path(1, 1, 7))        # Identity product name
+    if req[0] == "ga":
+        return W.get_attribute_single(W.cia_path(2, 1, 1))        # tag a: the first attribute auto-allocated in the Message Router
     return W.multiple([encode(m) for m in req[1]])
 
 
@@ -386,6 +391,14 @@ def decode_results(reqs, replies):
             if d["service"] != 0x8E:
                 raise W.WireError("Get Attribute Single answered with service 0x%02x" % d["service"])
             out.append(("g", d["status"], bytes(d["payload"])))
+        elif r[0] == "ga":
+            d = W.dec_reply(rp)
+            if d["service"] != 0x8E:
+                raise W.WireError("Get Attribute Single answered with service 0x%02x" % d["service"])
+            raw = bytes(d["payload"])
+            if d["status"] == 0 and len(raw) != 2 * N:
+                raise W.WireError("Get Attribute Single of the %d-element INT tag returned %d bytes" % (N, len(raw)))
+            out.append(("r", d["status"], tuple(struct.unpack("<%dh" % (len(raw) // 2), raw))))
         else:
             d = W.dec_read_reply(rp)
             if d["service"] != 0xCC:
@@ -416,6 +429,10 @@ def linearizable(ops, results, final):
                 s2[op[1]:op[1] + len(op[2])] = list(op[2])
             elif op[0] == "g":
                 if res[:2] != ("g", 0) or res[2] != IDENTITY_NAME:      # a constant attribute: the same answer whenever it is read
+                    continue
+                s2 = store
+            elif op[0] == "ga":
+                if res != ("r", 0, tuple(store)):
                     continue
                 s2 = store
             else:
@@ -584,11 +601,11 @@ def plan(tier):
     watched functions that touches possibly shared data."""
     if tier == "quick":
         return [("W|R", "cm", "G1", 2), ("B|B", "cm", "G0", 2), ("B|B", "cm", "G1", 1), ("WR|WR", "cm", "G1", 1), ("B|R", "cm", "G1", 1),
-                ("private", "cm", "G1", 1), ("W|W|R", "cm", "G0", 1), ("W|R", "frame", "G1", 1), ("B|B", "frame", "G0", 1),
+                ("private", "cm", "G1", 1), ("W|W|R", "cm", "G0", 1), ("W|G", "cm", "G1", 1), ("W|R", "frame", "G1", 1), ("B|B", "frame", "G0", 1),
                 ("cold", "frame", "G1", 1), ("cold0", "frame", "G1", 1)]
     # executions grow like points^bound / bound!: line granularity (G1, 300-900 points per program) gets bound 2 only for the
     # single-request programs; lock granularity (G0, 120-500 points) gets the higher bound
-    return [("W|R", "cm", "G1", 2), ("W|R", "cm", "G0", 3), ("B|R", "cm", "G1", 2),
+    return [("W|R", "cm", "G1", 2), ("W|R", "cm", "G0", 3), ("B|R", "cm", "G1", 2), ("W|G", "cm", "G1", 2),
             ("WR|WR", "cm", "G1", 1), ("WR|WR", "cm", "G0", 2), ("B|B", "cm", "G1", 1), ("B|B", "cm", "G0", 2),
             ("B3|B3", "cm", "G1", 1), ("B3|B3", "cm", "G0", 1), ("WW|RR", "cm", "G1", 1), ("WW|RR", "cm", "G0", 2),
             ("private", "cm", "G1", 1), ("private", "cm", "G0", 2), ("W|W|R", "cm", "G0", 2), ("W|W|R", "cm", "G1", 1),
